@@ -161,7 +161,7 @@ def _work(i):
     o = _OBS[i]
     t0 = time.time()
     try:
-        if o.kind == "cover":
+        if o.kind in ("cover", "finding"):
             # reachability witness: quantified hypotheses are dropped (cheap; `sat` here is only a sanity check
             # against contradictory quantifier-free assumptions - real reachability evidence is the differential)
             from .quant import _contains_quant
